@@ -31,5 +31,40 @@ PROPS = {
              assumptions=['A-div: WorkCalendarDiv is specified only for dates on which no divisor operand has the value 0 (Python raises ZeroDivisionError there)'],
              design_ref='8/C17'),
 }
+_SCHED_TRUST = ['interface contract (L): IResource.get_available_units is a pure, deterministic, day-granular function cap(resource, day) - proved zero-filled / never None for Resource over every calendar class (contracts/calendar.py)',
+                'interface contract (L): IResource.reserve (a hook, `pass` in the repository) does not touch the ledger or the tasks',
+                'induction schema for snoc-lists (ledger) and the function-by-function / recursion-by-contract meta-argument',
+                'structure facts assumed at the entry of the passes (established by calc and by the graph invariants, not re-proved here): links and children non-null, '
+                'rank decreasing along every waits-for edge (exists iff _check_loops accepts; K1), ids unique in the WBS (C05), Task.all_parents lists parent first then its ancestors, summary fields cleared by __prepare_tasks']
+_SCHED_B = ['ForwardScheduler.calc / BackwardScheduler.calc (composition of the passes over the roots, WBS.clone) - bounded stand-in only',
+            '_validate_graph_isolation, _check_loops, _check_loops_from_task, __check_no_end_dates_in_future, __prepare_tasks - bounded stand-in only',
+            'ResourceUsageReport.rows(filter) - bounded stand-in only']
+_SCHED_EXPL = ('contract-based deductive verification of the functions the property lives in: the four scheduling kernels (fill loops and availability searches of both schedulers), '
+               '_ResourceUsage.reserve/reserved and ResourceUsageReport.reserved (sum-comprehensions proved equal to the ledger specification functions by induction), and the two recursive passes '
+               '__forward_pass/__backward_pass checked against their own contracts at every call site (recursion = induction, termination by rank). All loops are cut by invariants - no bound on WBS size, '
+               'calendar, dates or amounts; capacity is an uninterpreted function, so the proofs hold for every calendar. Level `other`, not `proof`: calc (the composition over the roots), clone and the '
+               'validation helpers are only covered by the bounded native stand-in, and the structure facts listed under trusted are assumed at the entry of the passes. ')
+PROPS.update({
+    'C02': P('other', _SCHED_EXPL + 'C02 clauses proved: a scheduler-chosen start is on/after the day of the end of every own and inherited prerequisite (inherited = predecessors of every ancestor, final because calculated), '
+             'of the project start, min_start and the clock; no row of the task before its start day nor before today; a milestone sits exactly at the latest prerequisite end or the project start.',
+             _SCHED_B, _SCHED_TRUST, design_ref='8/C02'),
+    'C03': P('other', _SCHED_EXPL + 'C03 clauses proved: ledger invariant (positive rows on days with capacity, day total <= capacity with balancing on, per-task total <= capacity with balancing off) preserved by every kernel and pass on '
+             'both exits; reserve appends exactly one day-normalised row; reserved()/report totals equal the sum over the rows.', _SCHED_B, _SCHED_TRUST, design_ref='8/C03'),
+    'C04': P('other', _SCHED_EXPL + 'C04 clauses proved: work(ledger, task) grows by exactly max(estimate-spent,0) (defaults filled) for a leaf that is neither milestone nor completed, by 0 otherwise; rows only from the start day / '
+             'before the end day; end within 24h after the last reserved midnight (forward), start within the first reserved day (backward); user-fixed dates returned unchanged.', _SCHED_B, _SCHED_TRUST, design_ref='8/C04'),
+    'C06': P('other', _SCHED_EXPL + 'C06 clauses proved at pass level: frame (tasks already calculated, tasks of higher rank and tasks left uncalculated keep all fields; searches do not touch the ledger) and every task handled gets start/end/estimate/spent. '
+             'Purity w.r.t. the input WBS, structural equality of the copy, repeatability and clock independence are decided by the bounded stand-in only.', _SCHED_B + ['WBS.clone'], _SCHED_TRUST, design_ref='8/C06'),
+    'C07': P('other', _SCHED_EXPL + 'C07 clauses proved: start <= end for every task without user-fixed dates in its subtree (leaf, milestone, summary; both schedulers); summary start = earliest child start, end = latest child end, '
+             'estimate/spent = sums over the children. WBS.start/end over the roots: bounded stand-in.', _SCHED_B + ['WBS.start', 'WBS.end'], _SCHED_TRUST,
+             ['tasks with user-fixed dates in their subtree are excluded from the start<=end clause (known findings A-19, user-fixed-end)'], design_ref='8/C07'),
+    'C08': P('other', _SCHED_EXPL + 'C08 clauses proved at kernel level: the search returns the first day on/after the release day with free capacity, every skipped day is fully booked, start = midnight + 24h*share booked before; '
+             'the fill loop leaves every day before the last work day full and end = midnight(last) + 24h*share booked up to the task. WBS order among independent tasks and independence with balancing off: bounded stand-in.',
+             _SCHED_B, _SCHED_TRUST, design_ref='8/C08'),
+    'C09': P('other', _SCHED_EXPL + 'C09 clauses proved: global invariant of the backward pass - every calculated task without user-fixed dates ends before the project end and before the start of every successor of itself and of its ancestors; '
+             'kernels: latest day with free capacity, skipped days full, end/start encodings from the end of the day, days between first and last work day full.', _SCHED_B, _SCHED_TRUST, design_ref='8/C09'),
+    'C14': P('other', _SCHED_EXPL + 'C14 clauses proved: every safety obligation of the kernels and passes (no None arithmetic/attribute, no division by zero, no max/min of an empty list, no negative estimate, no undeclared exception class), '
+             'termination measures of all four bounded searches and of the recursion (rank). That calc answers RuntimeError for unschedulable inputs (cycle through the hierarchy, outside predecessor without dates, fixed end in the future) '
+             'is decided by the bounded stand-in only.', _SCHED_B, _SCHED_TRUST + ['A-stack'], design_ref='8/C14'),
+})
 for _p in ['C01', 'C02', 'C03', 'C04', 'C05', 'C06', 'C07', 'C08', 'C09', 'C10', 'C11', 'C12', 'C13', 'C14', 'C15', 'C16', 'C18', 'C19', 'C20']:
     PROPS.setdefault(_p, P('other', 'see MANIFEST.json', design_ref='8/' + _p))
